@@ -22,7 +22,28 @@ def gen(rng, cls, le):
     # --- verneed
     need, blob = [], b''
     nneed = rng.choice([0, 1, 2, 3])
-    for i in range(nneed):
+    if nneed >= 2 and rng.random() < 0.35:
+        # another well-formed layout: all records first, their auxiliaries behind them (an auxiliary displacement may exceed the
+        # displacement to the next record: both are only displacements from the record)
+        per = []
+        for i in range(nneed):
+            auxes = [dict(hash=rng.randrange(1 << 32), flags=rng.choice([0, 2]), other=rng.choice([0, rng.randrange(2, 40)]),
+                          name=rng.choice([b'GLIBC_2.2.5', b'GLIBC_2.34', b'V1'])) for _ in range(rng.choice([1, 2, 3]))]
+            per.append((rng.choice([b'libc.so.6', b'libm.so.6']), auxes))
+        aux_start, pos = [], 16 * nneed
+        for f, auxes in per:
+            aux_start.append(pos)
+            pos += 16 * len(auxes)
+        for i, (f, auxes) in enumerate(per):
+            blob += struct.pack(e + 'HHIII', 1, len(auxes), so[f], aux_start[i] - 16 * i, 16 if i < nneed - 1 else 0)
+        for f, auxes in per:
+            for k, a in enumerate(auxes):
+                blob += struct.pack(e + 'IHHII', a['hash'], a['flags'], a['other'], so[a['name']], 16 if k < len(auxes) - 1 else 0)
+            need.append(dict(file=f.decode(), cnt=len(auxes), auxes=[(a['hash'], a['flags'], a['other'], a['name'].decode()) for a in auxes]))
+        nneed_done = True
+    else:
+        nneed_done = False
+    for i in range(0 if nneed_done else nneed):
         auxes = []
         for _ in range(rng.choice([1, 1, 2, 3])):
             auxes.append(dict(hash=rng.randrange(1 << 32), flags=rng.choice([0, 2]),
